@@ -853,37 +853,30 @@ func c04BSupplied(st c04BStep) map[string][]Bs {
 	return m
 }
 
-// Forms beyond the 32 MiB the server's parser keeps in memory are spilled to temporary files, which nobody removes: the
-// harness points TMPDIR at a directory of its own and empties it after every parallel case.
-var c04TmpOnce sync.Once
-var c04TmpDir string
-
-func c04OwnTmp() {
-	c04TmpOnce.Do(func() {
-		d := os.TempDir() + "/verif-c04-spill"
-		if err := os.MkdirAll(d, 0o700); err == nil {
-			c04TmpDir = d
-			_ = os.Setenv("TMPDIR", d)
-		}
-	})
-}
-
-func c04EmptyTmp() {
-	if c04TmpDir == "" {
-		return
+// Forms beyond the 32 MiB the server's parser keeps in memory are spilled to temporary files, which nobody removes: for the
+// time of a parallel case the harness points TMPDIR at a fresh directory of its own (per process and per case, so that
+// checks running side by side cannot touch each other's files) and removes it afterwards.
+func c04OwnTmp() (restore func()) {
+	d, err := os.MkdirTemp("", "verif-c04-spill-")
+	if err != nil {
+		return func() {}
 	}
-	if es, err := os.ReadDir(c04TmpDir); err == nil {
-		for _, e := range es {
-			_ = os.RemoveAll(c04TmpDir + "/" + e.Name())
+	old, had := os.LookupEnv("TMPDIR")
+	_ = os.Setenv("TMPDIR", d)
+	return func() {
+		if had {
+			_ = os.Setenv("TMPDIR", old)
+		} else {
+			_ = os.Unsetenv("TMPDIR")
 		}
+		_ = os.RemoveAll(d)
 	}
 }
 
 func (c04) Run(inAny any) any {
 	in := inAny.(c04In)
 	if len(in.Par) > 0 {
-		c04OwnTmp()
-		defer c04EmptyTmp()
+		defer c04OwnTmp()()
 		var obs c04Obs
 		obs.ParObs = make([]c04Obs, len(in.Par))
 		var wg sync.WaitGroup
